@@ -190,4 +190,44 @@ theorem flatten_append (a b : List (Arg α)) : flatten (a ++ b) = flatten a ++ f
   | nil => rfl
   | cons x rest ih => cases x <;> simp [flatten, ih]
 
+/-! ## emission does not look at argument identity
+
+`Node.to_onnx` trims by *position and presence*: whatever the arguments are — all distinct, one Var
+in several slots, a Var repeated inside a variadic — renaming them by any map `f` (injective or not)
+commutes with emission. -/
+
+variable {γ : Type}
+
+theorem flatten_map (f : α → γ) (args : List (Arg α)) :
+    flatten (args.map (Arg.map f)) = (flatten args).map (Option.map f) := by
+  induction args with
+  | nil => rfl
+  | cons a rest ih =>
+    cases a <;> simp [flatten, Arg.map, ih, List.map_map, Function.comp_def]
+
+theorem trimRev_map (f : α → γ) (minN : Nat) (xs : List (Option α)) :
+    trimRev minN (xs.map (Option.map f)) = (trimRev minN xs).map (Option.map f) := by
+  induction xs with
+  | nil => rfl
+  | cons x rest ih =>
+    cases x with
+    | some v => rfl
+    | none =>
+      simp only [List.map_cons, Option.map_none, trimRev, List.length_map]
+      split
+      · exact ih
+      · rfl
+
+theorem trim_map (f : α → γ) (minN : Nat) (xs : List (Option α)) :
+    trim minN (xs.map (Option.map f)) = (trim minN xs).map (Option.map f) := by
+  simp [trim, ← List.map_reverse, trimRev_map]
+
+theorem emitSlots_map (f : α → γ) (minN : Nat) (args : List (Arg α)) :
+    emitSlots minN (args.map (Arg.map f)) = (emitSlots minN args).map (Option.map f) := by
+  simp [emitSlots, flatten_map, trim_map]
+
+theorem emitSlotsCustom_map (f : α → γ) (args : List (Arg α)) :
+    emitSlotsCustom (args.map (Arg.map f)) = (emitSlotsCustom args).map (Option.map f) := by
+  simp [emitSlotsCustom, len, flatten_map, trim_map]
+
 end Emit
